@@ -360,7 +360,7 @@ class SparselyBin(Factory, Container):
                 b = self.bin(q)
                 if b not in self.bins:
                     # fill the new bin before inserting it, so that a failing fill leaves no empty bin behind
-                    sub = self.value.copy()
+                    sub = self.value.zero()
                     sub.fill(datum, weight)
                     self.bins[b] = sub
                 else:
